@@ -229,6 +229,95 @@ func main() {
 			}
 		}
 	}
+	// a point that served as the base of a multiplication and is then rewritten in place by
+	// every method that can rewrite it: the next multiplication by it must agree across the
+	// implementations (and with a multiplication by a fresh copy)
+	{
+		r := rng.Fork()
+		np := func(in grpprog.Inst) kyber.Point {
+			p := in.G.Point()
+			if in.VarTime {
+				if a, ok := p.(kyber.AllowsVarTime); ok {
+					a.AllowVarTime(true)
+				}
+			}
+			return p
+		}
+		rewriters := []string{"Embed", "Embed-empty", "Pick", "Set", "UnmarshalBinary", "Null", "Base", "Add", "Sub", "Neg", "Mul", "Mul-base", "Clone-assign"}
+		for round := 0; round < 2; round++ {
+			k0, s1, s2, ky := r.EdgeScalar(L), r.EdgeScalar(L), r.EdgeScalar(L), r.EdgeScalar(L)
+			if s2.Sign() == 0 {
+				s2.SetInt64(3)
+			}
+			payload, seed := r.Bytes(1+r.Intn(20)), r.Bytes(16)
+			for _, how := range rewriters {
+				var ref []byte
+				for i, in := range eds {
+					var out, fresh []byte
+					pn, msg := vh.Try(func() {
+						g := in.G
+						X := np(in).Mul(grpprog.MkScalar(g, k0), nil)
+						Y := np(in).Mul(grpprog.MkScalar(g, ky), nil)
+						R := np(in)
+						R.Mul(grpprog.MkScalar(g, s1), X) // X serves as a base once
+						switch how {
+						case "Embed":
+							X.Embed(payload, vh.NewSeqStream(seed))
+						case "Embed-empty":
+							X.Embed([]byte{}, vh.NewSeqStream(seed))
+						case "Pick":
+							X.Pick(vh.NewSeqStream(seed))
+						case "Set":
+							X.Set(Y)
+						case "UnmarshalBinary":
+							if err := X.UnmarshalBinary(enc(Y)); err != nil {
+								panic(err)
+							}
+						case "Null":
+							X.Null()
+						case "Base":
+							X.Base()
+						case "Add":
+							X.Add(X, Y)
+						case "Sub":
+							X.Sub(Y, X)
+						case "Neg":
+							X.Neg(X)
+						case "Mul":
+							X.Mul(grpprog.MkScalar(g, ky), X)
+						case "Mul-base":
+							X.Mul(grpprog.MkScalar(g, ky), nil)
+						case "Clone-assign":
+							X = Y.Clone()
+							if in.VarTime {
+								if a, ok := X.(kyber.AllowsVarTime); ok {
+									a.AllowVarTime(true)
+								}
+							}
+						}
+						out = enc(R.Mul(grpprog.MkScalar(g, s2), X))
+						c := np(in)
+						if err := c.UnmarshalBinary(enc(X)); err != nil {
+							panic(err)
+						}
+						fresh = enc(np(in).Mul(grpprog.MkScalar(g, s2), c))
+					})
+					if pn {
+						rep.Fail("C18/"+in.Name+"/base-history-panic", msg, map[string]string{"rewritten_by": how})
+						continue
+					}
+					rep.Dist("ed25519:base-rewritten-by:" + how)
+					if i == 0 {
+						ref = out
+					}
+					if !bytes.Equal(out, ref) || !bytes.Equal(out, fresh) {
+						rep.Fail("C18/"+in.Name+"/mul-after-base-rewritten-in-place", "a multiplication by a point that was used as a base before and then rewritten in place disagrees across implementations or with a multiplication by a fresh copy",
+							map[string]string{"impl": in.Name, "rewritten_by": how, "s2": s2.String(), "got": vh.Hex(out), "reference_impl": vh.Hex(ref), "fresh_copy": vh.Hex(fresh)})
+					}
+				}
+			}
+		}
+	}
 	// crypto/ed25519 key derivation: public key = clamp(SHA-512(seed)[:32]).B
 	for i := 0; i < nk/2+1; i++ {
 		r := rng.Fork()
